@@ -252,7 +252,8 @@ def conformance(env, info, ser, pt, aad, has_zip, apu):
         if len(zs) != 1 or zs[0]["data"] != pt:
             return rt.why('_roundtrip#19')
         body = zs[0]["body"]                 # raw DEFLATE: zlib header (2) and Adler-32 (4) stripped
-    if e["pt"] != body or env.b64decode(ivseg) != e["iv"] or env.b64decode(ctseg) != e["ct"]:
+    want_pt = ice.pkcs7(body) if e["kind"] == "cbc_encrypt" else body       # RFC 7518 5.2.2.1: PKCS #7 padding before AES-CBC
+    if e["pt"] != want_pt or env.b64decode(ivseg) != e["iv"] or env.b64decode(ctseg) != e["ct"]:
         return rt.why('_roundtrip#20')
     cek = e["key"] if kind != "cbc" else None
     if kind == "cbc":
@@ -445,6 +446,82 @@ def two_recipients(alg_i: int, alg2_i: int, enc_i: int, pt: bytes, aad: Optional
     return len(gens) == n_ecdh and len({g["value"] for g in gens}) == n_ecdh
 
 
+def shared_alg_recipients(alg_i: int, enc_i: int, curve_i: int, n: int, which: int) -> bool:
+    """
+    PRE: 0 <= alg_i < 17 and enc_i in (0, 3) and curve_i in CURVE_SET and 2 <= n <= 3 and 0 <= which < n
+    POST: _
+    """
+    # general JSON whose recipients carry NO header of their own: "alg" sits in the protected header and is shared; every recipient
+    # (own key each) must be able to decrypt -- whatever the algorithm generates per recipient (epk, iv/tag, p2s/p2c) must not collide
+    rt.tick()
+    env = ice.Env(False)
+    alg = ALGS[alg_i]
+    encname, ivbits, cekbits, kind = ENCS[enc_i]
+    keys = [key_for(alg, cekbits, curve_i, "s%d" % i) for i in range(n)]
+    reg = JWERegistry(algorithms=ALL_NAMES, verify_all_recipients=False)
+    pt = b"shared-alg-plaintext"
+    with env.installed(patches()):
+        try:
+            obj = GeneralJSONEncryption({"enc": encname, "alg": alg}, pt)
+            for k in keys:
+                obj.add_recipient(None, k)
+            tok = jwe.encrypt_json(obj, None, registry=reg)
+        except ice.HarnessError:
+            raise
+        except Exception as e:  # noqa
+            return alg in DIRECT and isinstance(e, ConflictAlgorithmError)
+        if alg in DIRECT:
+            return False
+        try:
+            out = jwe.decrypt_json(tok, keys[which], registry=reg)
+        except ice.HarnessError:
+            raise
+        except Exception:  # noqa
+            return rt.why("shared_alg_recipients#decrypt")
+    return out.plaintext == pt
+
+
+def replay_shared_alg(alg_i, enc_i, curve_i, n, which):
+    import warnings
+    warnings.simplefilter("ignore")
+    from vlib import refjose as R
+    from joserfc.jwk import JWKRegistry
+    alg = ALGS[alg_i]
+    encname, ivbits, cekbits, kind = ENCS[enc_i]
+    jks = []
+    for i in range(n):
+        if alg.startswith("RSA"):
+            j = R.test_key("RSA2048") if i == 0 else R.test_key("RSA2049")
+        elif alg.startswith("ECDH"):
+            j = R.test_key(CURVES[curve_i]) if i == 0 else R._ephemeral(CURVES[curve_i])
+            if i == 2:
+                j = dict(R.test_key(CURVES[curve_i]))           # (third recipient: the first key again under another name)
+        elif alg.startswith("PBES2"):
+            j = {"kty": "oct", "k": R.b64e(b"password-%d-password-xx" % i)}
+        else:
+            nbytes = cekbits // 8 if alg == "dir" else int(alg[1:4]) // 8
+            j = {"kty": "oct", "k": R.b64e(bytes((i * 17 + b) % 256 for b in range(nbytes)))}
+        jks.append(dict(j, kid="s%d" % i))
+    keys = [JWKRegistry.import_key(j) for j in jks]
+    reg = JWERegistry(algorithms=ALL_NAMES, verify_all_recipients=False)
+    pt = b"shared-alg-plaintext"
+    obj = GeneralJSONEncryption({"enc": encname, "alg": alg}, pt)
+    for k in keys:
+        obj.add_recipient(None, k)
+    try:
+        tok = jwe.encrypt_json(obj, None, registry=reg)
+    except Exception as e:  # noqa
+        return {"violated": alg not in DIRECT, "key": "c04-shared-alg", "detail": "encryption of %d header-less recipients sharing alg=%s failed: %r" % (n, alg, e)}
+    res = []
+    for i, k in enumerate(keys):
+        try:
+            res.append(jwe.decrypt_json(tok, k, registry=reg).plaintext == pt)
+        except Exception as e:  # noqa
+            res.append("%s" % type(e).__name__)
+    return {"violated": res[which] is not True, "key": "c04-shared-alg", "detail": "general JSON, %d recipients without own header, alg=%s in the protected header: "
+            "decryption per recipient -> %r (protected header of the token: %r)" % (n, alg, res, sorted(R.json.loads(R.b64d(tok["protected"])))) }
+
+
 def single_key_mixed(alg_i: int, alg2_i: int, curve2_i: int, which: int) -> bool:
     """
     PRE: 0 <= alg_i < 17 and 0 <= alg2_i < 17 and 0 <= curve2_i < 6 and 0 <= which <= 1
@@ -598,6 +675,8 @@ def replay(func, call):
         alg_i, enc_i, curve_i, ser, has_zip, pt, aad, apu, hdr_where, keyset, pick = args
     elif func == "single_key_mixed":
         return replay_single_key_mixed(*args)
+    elif func == "shared_alg_recipients":
+        return replay_shared_alg(*args)
     elif func == "two_recipients":
         alg_i, alg2_i, enc_i, pt, aad = args
         ser, n_rec, hdr_where = 2, 2, 2
